@@ -56,6 +56,12 @@ def tlc_jobs(ctx, quick):
             if sp in ('rn2', 'discr2', 'power1'):
                 exp('d2-' + sp, sp, 2, 'core', deep='core', xs='tiny')
                 exp('d2b-' + sp, sp, 2, 'core2', deep='core2', xs='tiny')
+    # weighted power spaces (component weights enter the inner product AND the point-wise norms): the vector-field
+    # leaves (Huber, group-L1 with exponent 2, ...) alone and under one rule
+    for sp in fu.SPACES_W:
+        exp('d0-' + sp, sp, 0, 'vf', xs='quick')
+        if sp != 'wpowerC' or not quick:
+            exp('d1-' + sp, sp, 1, 'vf', xs='tiny' if quick else 'quick')
     # a LINEAR base functional under every rule at depth 2 and 3 (is_linear redirects f*s into s*f)
     def explin(name, sp, depth, rules):
         out = os.path.join(ctx.work, 'exp_%s.ndjson' % name)
